@@ -1,4 +1,4 @@
-(** Model of src/epd7in5_hd/mod.rs — STUB, not yet transcribed. *)
+(** Model of src/epd7in5_hd/mod.rs. *)
 From Coq Require Import List NArith Bool.
 From EPD Require Import Iface Ops Drv.Luts.
 Import ListNotations.
@@ -8,11 +8,89 @@ Open Scope m_scope.
 Module Epd7in5_hd.
 Definition WIDTH : N := 880.
 Definition HEIGHT : N := 528.
+Definition IS_BUSY_LOW := false.
 
-Definition init : M unit := ret tt.
+Definition wait_until_idle : M unit := wait_idle IS_BUSY_LOW.
 
-Definition exec (k : N) (o : op) : option (M rval) := None.
+(** the private wrappers [command] and [cmd_with_data] of the driver *)
+Definition command (c : N) : M unit := cmd c.
+Definition cmd_with_data' (c : N) (l : list N) : M unit := cmd_with_data c l.
+
+Definition init : M unit :=
+  reset 10000 2000 ;;
+  wait_until_idle ;;
+  command 0x12 ;;
+  wait_until_idle ;;
+  cmd_with_data' 0x46 [0xF7] ;;
+  wait_until_idle ;;
+  cmd_with_data' 0x47 [0xF7] ;;
+  wait_until_idle ;;
+  cmd_with_data' 0x0C [0xAE; 0xC7; 0xC3; 0xC0; 0x40] ;;
+  cmd_with_data' 0x01 [0xAF; 0x02; 0x01] ;;
+  cmd_with_data' 0x11 [0x01] ;;
+  cmd_with_data' 0x44 [0x00; 0x00; 0x6F; 0x03] ;;
+  cmd_with_data' 0x45 [0xAF; 0x02; 0x00; 0x00] ;;
+  cmd_with_data' 0x3C [0x05] ;;
+  cmd_with_data' 0x18 [0x80] ;;
+  cmd_with_data' 0x22 [0xB1] ;;
+  command 0x20 ;;
+  wait_until_idle ;;
+  cmd_with_data' 0x4E [0x00; 0x00] ;;
+  cmd_with_data' 0x4F [0x00; 0x00].
+
+Definition sleep : M unit :=
+  wait_until_idle ;;
+  cmd_with_data' 0x10 [0x01].
+
+Definition update_frame (k len : N) : M unit :=
+  wait_until_idle ;;
+  cmd_with_data' 0x4F [0x00; 0x00] ;;
+  cmd_with_data_e 0x24 (DArg k 0 0 len) ;;
+  cmd_with_data' 0x22 [0xF7].
+
+Definition update_partial_frame (k len x y w h : N) : M unit := panic.
+
+Definition display_frame : M unit :=
+  command 0x20 ;;
+  wait_until_idle.
+
+Definition update_and_display_frame (k len : N) : M unit :=
+  update_frame k len ;;
+  display_frame.
+
+Definition clear_frame : M unit :=
+  let pixel_count := WIDTH / 8 * HEIGHT in
+  s <- get ;;
+  let background_color_byte := if bg s =? cWhite then 0xff else 0x00 in
+  wait_until_idle ;;
+  cmd_with_data' 0x4F [0x00; 0x00] ;;
+  forM [0x24; 0x26] (fun c =>
+    command c ;;
+    data_x_times background_color_byte pixel_count) ;;
+  cmd_with_data' 0x22 [0xF7] ;;
+  command 0x20 ;;
+  wait_until_idle.
+
+Definition set_lut (r : option N) : M unit := panic.
+
+Definition exec (k : N) (o : op) : option (M rval) :=
+  match o with
+  | OSleep => unit_ sleep
+  | OWakeUp => unit_ init
+  | OSetBg c => unit_ (modify (set_bg c))
+  | OGetBg => Some (s <- get ;; ret (RColor (bg s)))
+  | OWidth => Some (ret (RNum WIDTH))
+  | OHeight => Some (ret (RNum HEIGHT))
+  | OUpdateFrame len => unit_ (update_frame k len)
+  | OUpdatePartial len x y w h => unit_ (update_partial_frame k len x y w h)
+  | ODisplay => unit_ display_frame
+  | OUpdateAndDisplay len => unit_ (update_and_display_frame k len)
+  | OClear => unit_ clear_frame
+  | OSetLut r => unit_ (set_lut r)
+  | OWaitIdle => unit_ wait_until_idle
+  | _ => None
+  end.
 
 Definition drv (ft : feat) : driver :=
-  mkDriver WIDTH HEIGHT false d0 init exec.
+  mkDriver WIDTH HEIGHT false (mkD cWhite 0 false false 0 None) init exec.
 End Epd7in5_hd.
